@@ -17,6 +17,11 @@ CHECKS = {
  'C12': ('error-path monitor over the one-step, overlay and transfer explorations: VfsError.path must be the call path, its destination or an ancestor/descendant in the caller namespace, never the placeholder; kinds per contract', '§5 C12'),
  'C13': ('every explored path that ends in a panic (failed MIR assert, modelled library panic, explicit panic!) or self-deadlock is a counterexample; one-step, reader scripts with any 64-bit offset (dev and release arithmetic), writer sessions, handles after removal, overlay histories', '§5 C13'),
  'C14': ('reader scripts in lock-step with a reference cursor (symbolic 64-bit offsets); writer sessions against a reference growable cursor', '§5 C14'),
+ 'C02': ('lock-step differential: the same call from the same tree on the real MemoryFS MIR and on the real PhysicalFS MIR over an OS contract model of std::fs (validated against the real kernel by the native selftest in every run); success/failure, not-found/exists classes, data and full snapshot compared', '§5 C02'),
+ 'C15': ('the hand-written async reader kernels (AsyncReadableFile::poll_read/poll_seek, async-vfs MIR) against the sync reader contract on symbolic scripts; the async filesystems and AsyncVfsPath (lowered coroutines) are outside this check', '§5 C15'),
+ 'C16': ('2 threads x 1 call (thorough: 2x2, 3x1) on overlapping paths of one MemoryFS: every interleaving at lock-acquisition granularity explored on the real MIR; results and final snapshot must equal a sequential order (solver compares bytes); deadlock incl. recursive read lock; schedules replayed natively through the cfg hook', '§5 C16'),
+ 'C17': ('concurrent create_dir_all on overlapping paths from every set of pre-existing prefixes: every interleaving (MemoryFS) / preemption-bounded interleavings (OverlayFS, AltrootFS); all calls Ok and all prefixes directories', '§5 C17'),
+ 'C18': ('RustEmbed replaced by a model over every subset of candidate embedded files with symbolic bytes; real EmbeddedFS::new and trait methods through VfsPath; all observers vs the implied tree, all mutators refused and nothing changed', '§5 C18'),
  'C19': ('setter sequences with symbolic instants on files and directories: the set field round-trips, other fields/length/type/bytes unchanged, append preserves creation time', '§5 C19'),
  'C20': ('fault switch on every dyn FileSystem dispatch to an underlying filesystem: for each operation every call index k fails once; Ok implies full effect and right answer, never a panic, lower layers untouched', '§5 C20'),
 }
@@ -27,12 +32,12 @@ props = [json.loads(l) for l in open(os.path.join(V, 'properties.jsonl'))]
 m = {
  'version': 1,
  'setup_cmd': 'cd /verif/native && CARGO_NET_OFFLINE=true cargo build --offline 2>&1 | tail -2',
- 'hooks': {'guard': 'manuel_woelker_rust_vfs_verif', 'enable': 'RUSTFLAGS="--cfg manuel_woelker_rust_vfs_verif" (no hook is committed yet; checks run on the unmodified source)',
-           'baseline_off_cmd': 'cd /repo && cargo test --workspace --no-fail-fast --offline', 'source_commits': [], 'add_only': True},
+ 'hooks': {'guard': 'manuel_woelker_rust_vfs_verif', 'enable': 'RUSTFLAGS="--cfg manuel_woelker_rust_vfs_verif" when building native/ (profile "hooks" in harness/script.py): MemoryFS then uses vfs::verif_hooks::RwLock, which yields to an installed schedule before every acquisition; used only to replay schedule counterexamples of C16/C17 natively. No check needs the hook to decide a property (the MIR dump is taken with the cfg off).',
+           'baseline_off_cmd': 'cd /repo && cargo test --workspace --no-fail-fast --offline', 'source_commits': ['7227458', '2f1e929'], 'add_only': False},
  'engines': [{'name': 'mirsym', 'path': 'mirsym/', 'serves_properties': sorted(CHECKS), 'kind_free_text': 'symbolic executor over rustc MIR text dumps, z3 bit-vector back end'},
              {'name': 'native-driver', 'path': 'native/', 'serves_properties': sorted(CHECKS), 'kind_free_text': 'native script driver used for encoder selftest and counterexample replay'}],
  'checks': [], 'not_applicable': [],
- 'notes': 'exit 2 = inconclusive (bound hit, unmodelled callee, solver unknown, selftest mismatch, non-reproducing counterexample); never reported as pass or violation',
+ 'notes': 'hooks.add_only is false because one `use std::sync::{Arc, RwLock};` line of src/impls/memory.rs was split into a cfg(not)/cfg pair of imports (identical with the cfg off); everything else is added code. exit 2 = inconclusive (bound hit, unmodelled callee, solver unknown, selftest mismatch, non-reproducing counterexample); never reported as pass or violation',
 }
 for p in props:
     pid = p['id']
